@@ -470,3 +470,33 @@ def c13o(ctx):
     unl = [n for n, x in g.find(lambda x: is_call(x, 'os.unlink', 'os.remove'))]
     ok = bool(unl) and all(any(u in g.reachable(0) and l in g.reachable(u) for u in unl) for l in links)
     ctx.check(ok, 'FileCache._store_single_color_tile:old-link-removed-first', 'an existing link is removed before the new one is made', fn)
+
+
+@rule('C13.p', floor=3)
+def c13p(ctx):
+    """a tile written after the threshold is served from the cache -- also for the request that waited: the creators ask again under
+    the tile lock whether the tile is cached and fresh, with the tile object they loaded *before* the lock.  "How old is it" must then
+    be answered from the store, not from the object: the sqlite cache reads last_modified again for a tile that already carries its
+    image (load_tile returns at once for such a tile and leaves the old age in place), and the per-level cache asks its level
+    database the same question"""
+    fn = ctx.fn('mapproxy/cache/mbtiles.py:MBTilesCache.load_tile_metadata')
+    g = fn.cfg
+    loads = g.find(lambda x: is_call(x, 'self.load_tile'))
+    has_img = lambda at: at.op is None and unparse(at.expr) == 'tile.source'       # noqa: E731
+    # load_tile is only the answer for a tile without image
+    no_coord = lambda at: at.op == '==' and 'tile.coord' in at.text and 'None' in at.text      # noqa: E731  (nothing to look up)
+    ok = all(g.guarded_any(n, [(has_img, False), (no_coord, True)]) for n, x in loads)
+    ctx.check(ok, 'MBTilesCache.load_tile_metadata:load_tile-only-without-image', 'load_tile (a no-op for a tile with image) is not the answer for a tile that has one', fn,
+              fail='MBTilesCache.load_tile_metadata answers with load_tile also for a tile that already has its image: the age read before the tile '
+                   'lock is used for the re-check under the lock and a tile refreshed in the meantime is fetched again')
+    sets = g.find_stmts(lambda s: isinstance(s, ast.Assign) and unparse(s.targets[0]) == 'tile.timestamp' and
+                        contains(s.value, lambda x: is_call(x, 'sqlite_datetime_to_timestamp')))
+    q = [x for x in fn.walk() if isinstance(x, ast.Call) and isinstance(x.func, ast.Attribute) and x.func.attr == 'execute' and x.args and
+         'last_modified' in str(const_value(x.args[0], ''))]
+    ok = bool(sets) and bool(q) and any(g.guarded(n, has_img, True) for n in sets)
+    ctx.check(ok, 'MBTilesCache.load_tile_metadata:age-read-from-the-database', 'for a tile with image the time stamp is read from the tiles table', fn)
+    lv = ctx.fn('mapproxy/cache/mbtiles.py:MBTilesLevelCache.load_tile_metadata')
+    ok = any(isinstance(x, ast.Call) and isinstance(x.func, ast.Attribute) and x.func.attr == 'load_tile_metadata' and is_call(x.func.value, 'self._get_level')
+             for x in lv.walk()) and not any(is_call(x, 'self.load_tile') for x in lv.walk())
+    ctx.check(ok, 'MBTilesLevelCache.load_tile_metadata:asks-the-level-database', 'the per-level cache hands the question to load_tile_metadata of its level cache', lv,
+              fail='MBTilesLevelCache.load_tile_metadata is load_tile: a no-op for a tile that already has its image')
